@@ -15,6 +15,10 @@ reaches too rarely (each added after a seeded change was missed; see DESIGN.md Â
   objp_<n>               a pointer variable FIRST in the environment (its block pointer lives in the first
                          register, which the backends use as scratch when loading spilled blocks), n integers,
                          an object of 4..8 fields built, matched in unshared and shared mode (C06, C07, C09)
+  argn_<n>              main with n = 0..7 integer parameters, each printed (entry-argument shuffle: C13, C01, C18)
+  bal_<kind>[_loop]     BALANCED substitutions: as many variables dropped as extra copies made, with objects /
+                         integers / closures on either side (reference counts: C09, C10, C11)
+  rvc_<cmp>             print-free: each comparison in two-register and zero form on less/equal/greater (C08)
   nest_<k>              a `case` and a closure on instances whose type arguments are themselves parameterised
                          types in every position (labels are built from printed type names: C14)
 Every program has `main(arg: i64): i64`, takes the argument tuple in the sibling .args file."""
@@ -159,6 +163,59 @@ def split_args(ty):
     raise ValueError(ty)
 
 
+def argn_prog(n):
+    """main with n integer parameters: every parameter printed in order, result = first parameter"""
+    params = ", ".join("p%d: i64" % i for i in range(1, n + 1))
+    body = " ".join("println_i64(p%d);" % i for i in range(1, n + 1))
+    return "def main(%s): i64 { %s %s }\n" % (params, body, "p1" if n else "42")
+
+
+# balanced substitutions: as many variables dropped as extra copies made (a reordering in LENGTH only)
+BAL = {
+    "objobj": ("def two(a: List[i64], b: List[i64]): i64 { hd(a) + hd(b) }\n"
+               "def replace(old: List[i64], l: List[i64]): i64 { two(l, l) }\n",
+               "replace(Cons(arg, Nil), Cons(arg + 1, Nil))"),
+    "intobj": ("def two(a: List[i64], b: List[i64]): i64 { hd(a) + hd(b) }\n"
+               "def both(l: List[i64], unused: i64): i64 { two(l, l) }\n",
+               "both(Cons(arg + 2, Nil), 9)"),
+    "objint": ("def add(a: i64, b: i64): i64 { a + b }\n"
+               "def step(l: List[i64], i: i64): i64 { add(i, i) }\n",
+               "step(Cons(arg, Cons(arg, Nil)), arg + 3)"),
+    "obj2": ("def four(a: List[i64], b: List[i64], c: List[i64], d: List[i64]): i64 { (hd(a) + hd(b)) + (hd(c) + hd(d)) }\n"
+             "def swap2(o1: List[i64], o2: List[i64], l: List[i64], m: List[i64]): i64 { four(l, l, m, m) }\n",
+             "swap2(Cons(1, Nil), Cons(2, Nil), Cons(arg, Nil), Cons(arg + 4, Nil))"),
+    "clos": ("def app2(f: Fun[i64, i64], g: Fun[i64, i64]): i64 { f.apply[i64, i64](g.apply[i64, i64](1)) }\n"
+             "def replacef(old: Fun[i64, i64], f: Fun[i64, i64]): i64 { app2(f, f) }\n",
+             "replacef(new { apply(x) => x }, new { apply(x) => x + arg })"),
+}
+
+
+def bal_prog(k, loop):
+    defs, call = BAL[k]
+    pre = "def hd(l: List[i64]): i64 { l.case[i64] { Nil => 0, Cons(h, t) => h } }\n"
+    if loop:
+        # the same balanced substitution executed repeatedly: a leak or an early release accumulates
+        return HEAD + pre + defs + (
+            "def loop(n: i64, acc: i64, arg: i64): i64 { if n <= 0 { acc } else { loop(n - 1, acc + %s, arg) } }\n"
+            "def main(arg: i64): i64 { println_i64(loop(6, 0, arg)); 0 }\n" % call)
+    return HEAD + pre + defs + "def main(arg: i64): i64 { println_i64(%s); println_i64(%s); 0 }\n" % (call, call)
+
+
+CMPS = {"eq": "==", "ne": "!=", "lt": "<", "le": "<=", "gt": ">", "ge": ">="}
+
+
+def rvc_prog(name):
+    """PRINT-FREE: one comparison in two-register and in zero form, evaluated on less / equal / greater operands;
+    the result encodes the six outcomes decimally"""
+    op = CMPS[name]
+    return (
+        "def c2(a: i64, b: i64): i64 { if a %s b { 1 } else { 0 } }\n"
+        "def c0(a: i64): i64 { if a %s 0 { 1 } else { 0 } }\n"
+        "def main(arg: i64): i64 { (((c2(arg, arg + 1) * 100000) + (c2(arg, arg) * 10000)) + ((c2(arg + 1, arg) * 1000) + (c0(arg - arg) * 100))) + ((c0((arg - arg) - 1) * 10) + c0((arg - arg) + 1)) }\n"
+        % (op, op)
+    )
+
+
 def main():
     out = sys.argv[1]
     os.makedirs(out, exist_ok=True)
@@ -190,6 +247,13 @@ def main():
             if nn in (1, 2, 16) and nf in (5, 7):
                 continue
             emit("objp_%02d_%d" % (nn, nf), objp_prog(nn, nf))
+    for nn in range(0, 8):
+        emit("argn_%d" % nn, argn_prog(nn), " ".join(str(11 * (i + 1)) for i in range(nn)))
+    for k in BAL:
+        emit("bal_%s" % k, bal_prog(k, False))
+        emit("bal_%s_loop" % k, bal_prog(k, True))
+    for k in CMPS:
+        emit("rvc_%s" % k, rvc_prog(k))
     for k in range(len(NEST_TYPES)):
         emit("nest_%d" % k, nest_prog(k))
     print(n, "programs")
